@@ -137,7 +137,17 @@ func (a *Arr) Delete(i int) {
 
 func Mid(lo, hi int) (int, int, int) {
 	u := uint(lo + hi)
-	return int(u >> 1), int(u & 0xff), int(u % 10)
+	return int(u>>1) + int(u/64), int(u & 0xff), int(u % 10)
+}
+
+type Opaque2 struct{ m map[int]int }
+
+// only the leading declarations are translated (TransSpec.Heads): the rest uses a map
+func (o *Opaque2) Split(num uint32, s []int) int {
+	high := uint16(num >> 16)
+	low := uint16(num)
+	n := len(s) + 1
+	return o.m[int(high)] + int(low) + n
 }
 
 // a slice parameter written in place is returned
